@@ -9,6 +9,19 @@
 //        queue the behaviour of the next such callback of <ent> (t<i> c<i> l<i> e<i>)
 //   run <item>…            Server::run(); item = <dt>[:<ent>=<bits>,…]  bits: 1 in 2 out 4 rdhup 8 hup 16 err
 //   sendq (w|e|<k>)… | recvq (w|e|z|<k>)… | acceptq (0|1)… | connq <err>…
+//   opts <keepalive> <nodelay> <sndbuf> <rcvbuf> <reuse>    the five socket-option setters of Server (the options are applied to
+//                          the sockets of later pair/accept/connect/listen operations; they do not change what the loop does)
+//   mt <round>…            rounds on the REAL kernel with real threads (interposition off): a loop thread calls run(), one or
+//                          two other threads call interrupt(); every round must end with run() returning within 3 s after
+//                          interrupt() returned and never before interrupt() was called.
+//        b<s><us>  interrupt() completes, then run()        d<s><us>  interrupt() <us> after the loop thread entered epoll_wait
+//        r<s><us>  both released at once (interrupter spins <us> first)   n  no interrupt for 20 ms (run() must not return), then one
+//        2<us>     two threads interrupt a waiting loop, the second <us> later
+//        <s>: n no stall, w the interrupter sleeps 3 ms right after its write to the event descriptor, p right before it
+//        hf ho Hf  connect("verif.test", …): the (interposed) lookup fails / succeeds, then interrupt(), then run() (H: both while the loop waits)
+//        x         an establisher removed while its lookup is pending gets no callback when the lookup completes
+//        c         clear(): pools empty, no callback of a cleared timer, the server is usable afterwards
+//                          prints  mt <k> <round> ok  or  mt <k> <round> FAIL <reason>
 //
 // Output: one line per observable event (same vocabulary as ServerLoopSpec.ev) and after every
 // operation a state line  st clk=… | <internal structure> .  Every iteration of run() (right after
@@ -33,6 +46,8 @@ typedef Server::Private SP;
 static long caseno = 0;
 static Server* server = 0;
 
+static volatile int mt_mode = 0;          // real-kernel rounds: callbacks only count
+static volatile long mt_acts = 0, mt_abolished[2] = {0, 0}, mt_other = 0;
 static void emit(const char* line) { printf("%ld %s\n", caseno, line); fflush(stdout); }
 static void emitf(const char* fmt, ...) __attribute__((format(printf, 1, 2)));
 #include <stdarg.h>
@@ -81,11 +96,13 @@ static bool inr(long i) { return i >= 0 && i < NID; }
 
 static void client_cb(long id, const char* name, int skind)
 {
+  if(mt_mode) { __sync_add_and_fetch(&mt_other, 1); return; }
   emitf("cb c%ld %s @%lld", id, name, slk_clock());
   run_entry(find_entry('c', id, skind));
 }
 void TimerCb::onActivated()
 {
+  if(mt_mode) { __sync_add_and_fetch(&mt_acts, 1); return; }
   SP::TimerImpl* ti = (SP::TimerImpl*)th[id];
   emitf("act t%ld due=%lld now=%lld", id, (long long)(ti->executionTime - ti->interval), slk_last_now());
   run_entry(find_entry('t', id, S_ACT));
@@ -96,6 +113,7 @@ void ClientCb::onClosed() { client_cb(id, "closed", S_CLOSED); }
 
 static Server::Client::ICallback* introduce(char ekind, long eid, int skind, const char* name, Server::Client& client)
 {
+  if(mt_mode) { __sync_add_and_fetch(&mt_other, 1); return 0; }
   Entry* e = find_entry(ekind, eid, skind);
   if(!e || !inr(e->nw)) { emitf("! no behaviour for %c%ld %s", ekind, eid, name); return 0; }
   long n = e->nw;
@@ -114,6 +132,7 @@ Server::Client::ICallback* ListenerCb::onAccepted(Server::Client& client, uint32
 Server::Client::ICallback* EstabCb::onConnected(Server::Client& client) { return introduce('e', id, S_CONNECTED, "connected", client); }
 void EstabCb::onAbolished()
 {
+  if(mt_mode) { __sync_add_and_fetch(&mt_abolished[ealive[id] ? 1 : 0], 1); return; }
   emitf("cb e%ld abolished @%lld", id, slk_clock());
   run_entry(find_entry('e', id, S_ABOLISHED));
 }
@@ -235,7 +254,7 @@ static void exec_action(char* line)
     emitf("removed e%ld", i);
   } else if(!strcmp(op, "write") && t.n == 3) {
     long n = atol(t.v[2]);
-    if(!inr(i) || !calive[i] || n < 1 || n > (long)sizeof(zeros)) { emit("skip"); return; }
+    if(!inr(i) || !calive[i] || n < 0 || n > (long)sizeof(zeros)) { emit("skip"); return; }
     usize postponed = 12345;
     bool ok = ch[i]->write(zeros, (usize)n, &postponed);
     emitf("wrote c%ld %d %llu", i, ok ? 1 : 0, (unsigned long long)postponed);
@@ -258,6 +277,181 @@ static void exec_action(char* line)
     slk_adv(atoll(t.v[1]));
   } else
     emitf("! bad action %s", op);
+}
+
+// ---- real-kernel rounds with real threads -------------------------------------------------------------------
+#include <pthread.h>
+#include <semaphore.h>
+#include <unistd.h>
+struct Worker { pthread_t th; sem_t go, done; volatile int quit, stall, spin_us; };
+static Worker wl, wa, wb;
+static volatile int intr_called = 0;
+
+static void spin_us(int us)
+{
+  if(us <= 0) return;
+  struct timespec a, b; clock_gettime(CLOCK_REALTIME, &a);
+  for(;;) { clock_gettime(CLOCK_REALTIME, &b); if((b.tv_sec - a.tv_sec) * 1000000L + (b.tv_nsec - a.tv_nsec) / 1000 >= us) break; }
+}
+static void* loop_main(void*)
+{
+  for(;;) { while(sem_wait(&wl.go) != 0) {} if(wl.quit) break; server->run(); __sync_synchronize(); sem_post(&wl.done); }
+  return 0;
+}
+static void* intr_main(void* p)
+{
+  Worker* w = (Worker*)p;
+  for(;;) {
+    while(sem_wait(&w->go) != 0) {}
+    if(w->quit) break;
+    spin_us(w->spin_us);
+    slk_thread_stall(w->stall, 3000);
+    intr_called = 1; __sync_synchronize();
+    server->interrupt();
+    slk_thread_stall(0, 0);
+    sem_post(&w->done);
+  }
+  return 0;
+}
+static bool wait_done(Worker& w, int ms)
+{
+  struct timespec ts; clock_gettime(CLOCK_REALTIME, &ts);
+  ts.tv_sec += ms / 1000; ts.tv_nsec += (long)(ms % 1000) * 1000000L; if(ts.tv_nsec >= 1000000000L) { ts.tv_sec++; ts.tv_nsec -= 1000000000L; }
+  for(;;) { if(sem_timedwait(&w.done, &ts) == 0) return true; if(errno != EINTR) return false; }
+}
+static void go(Worker& w, int stall, int spin) { w.stall = stall; w.spin_us = spin; __sync_synchronize(); sem_post(&w.go); }
+static bool wait_in_epoll(long before) { for(int k = 0; k < 40000; ++k) { if(slk_wait_entries() > before) return true; usleep(50); } return false; }
+static bool wait_until(bool (*cond)()) { for(int k = 0; k < 40000; ++k) { if(cond()) return true; usleep(50); } return false; }
+static bool evfd_ready() { return slk_evfd_readable() != 0; }
+static long lookups_seen = 0;
+static bool lookup_returned() { return slk_lookups_done() > lookups_seen; }
+
+static long mt_cur_k = 0; static const char* mt_cur_tok = "-";
+// the loop thread must have returned from run() `ms` after the interrupt was delivered; tries to unblock a hung loop
+static const char* finish_round(bool loop_started)
+{
+  if(!loop_started) return 0;
+  if(wait_done(wl, 3000)) return 0;
+  for(int k = 0; k < 3; ++k) { server->interrupt(); if(wait_done(wl, 500)) return "run() did not return within 3 s after interrupt() had returned"; }
+  emitf("mt %ld %s FAIL run() did not return within 3 s after interrupt() had returned, and further interrupt() calls do not end it either", mt_cur_k, mt_cur_tok);
+  fflush(stdout); abort();
+}
+
+static long mt_next_id = 100;
+static const char* mt_round(const char* tok, long)
+{
+  char kind = tok[0];
+  long k = mt_next_id < NID - 1 ? mt_next_id++ : NID - 1;
+  // an interrupt that is still pending (from before this operation or merged in an earlier round) ends the next run()
+  if(server->_p->_interrupted) { sem_post(&wl.go); if(!wait_done(wl, 3000)) return "a pending interrupt did not end the next run()"; }
+  int stall = tok[1] == 'w' ? 1 : tok[1] == 'p' ? 2 : 0;
+  int us = 0;
+  if(kind == 'b' || kind == 'd' || kind == 'r') us = atoi(tok + 2); else if(kind == '2') us = atoi(tok + 1);
+  const char* r = 0;
+  intr_called = 0; mt_acts = 0; mt_abolished[0] = mt_abolished[1] = 0;
+  long w0 = slk_wait_entries();
+  if(kind == 'b') {
+    go(wa, stall, 0); if(!wait_done(wa, 3000)) return "interrupt() did not return";
+    go(wl, 0, 0); r = finish_round(true);
+  } else if(kind == 'd' || kind == 'n') {
+    go(wl, 0, 0);
+    if(!wait_in_epoll(w0)) r = "the loop thread did not reach epoll_wait";
+    usleep(kind == 'n' ? 20000 : (useconds_t)us);
+    int sv; sem_getvalue(&wl.done, &sv);
+    if(sv > 0 && !r) r = "run() returned although interrupt() had not been called";
+    go(wa, stall, 0); if(!wait_done(wa, 3000)) return "interrupt() did not return";
+    const char* r2 = finish_round(true); if(!r) r = r2;
+  } else if(kind == 'r') {
+    go(wl, 0, 0); go(wa, stall, us);
+    if(!wait_done(wa, 3000)) return "interrupt() did not return";
+    r = finish_round(true);
+  } else if(kind == '2') {
+    go(wl, 0, 0);
+    if(!wait_in_epoll(w0)) r = "the loop thread did not reach epoll_wait";
+    go(wa, 0, 0); go(wb, 0, us);
+    if(!wait_done(wa, 3000) || !wait_done(wb, 3000)) return "interrupt() did not return";
+    const char* r2 = finish_round(true); if(!r) r = r2;
+    if(server->_p->_interrupted) { go(wl, 0, 0); if(!wait_done(wl, 3000) && !r) r = "a pending interrupt did not end the next run()"; }
+  } else if(kind == 'h' || kind == 'H' || kind == 'x') {
+    long i = k;
+    bool ok = kind != 'x' && tok[1] == 'o';
+    if(eused[i]) return "identity in use";
+    eused[i] = true;
+    slk_connect_mode(1);
+    server->setNoDelay(ok); server->setKeepAlive(ok);      // options for the socket the resolver round opens (TCP, so TCP_NODELAY applies)
+    eh[i] = server->connect(String("verif.test"), (uint16)9, ecb[i]);
+    if(!eh[i]) { slk_connect_mode(0); return "connect(host) failed"; }
+    ealive[i] = true;
+    lookups_seen = slk_lookups_done();
+    if(kind == 'x') { server->remove(*eh[i]); ealive[i] = false; }
+    bool started = false;
+    if(kind == 'H') { go(wl, 0, 0); started = true; if(!wait_in_epoll(w0)) r = "the loop thread did not reach epoll_wait"; }
+    slk_lookup_release(ok ? 1 : 0);
+    if(kind == 'H') go(wa, 0, 0);
+    else {
+      if(!wait_until(lookup_returned) || !wait_until(evfd_ready)) r = "the lookup thread did not signal the loop";
+      go(wa, 0, 0);
+    }
+    if(!wait_done(wa, 3000)) return "interrupt() did not return";
+    if(!started) go(wl, 0, 0);
+    const char* r2 = finish_round(true); if(!r) r = r2;
+    // the lookup may complete after the interrupt was consumed (H): give the loop one more round to see it
+    if(!wait_until(lookup_returned) && !r) r = "the lookup did not return";
+    if(kind == 'H' && !r) { usleep(2000); go(wa, 0, 0); wait_done(wa, 3000); go(wl, 0, 0); r = finish_round(true); }
+    slk_connect_mode(0);
+    server->setNoDelay(false); server->setKeepAlive(false);
+    if(!r && mt_abolished[0] > 0) r = "onAbolished for an establisher after its remove() had returned";
+    if(!r && !ok && kind != 'x' && mt_abolished[1] != 1) r = "a failed lookup must end in exactly one onAbolished";
+    if(!r && ok && mt_abolished[1] > 1) r = "onAbolished twice";
+    if(ealive[i] && !(mt_abolished[1] > 0)) { server->remove(*eh[i]); }
+    ealive[i] = false;
+    if(!r && server->_p->_resolvers.size() != 0) r = "a finished resolver was not released";
+  } else if(kind == 'c') {
+    long t = k, c = k, l = k;
+    if(tused[t] || cused[c] || lused[l]) return "identity in use";
+    tused[t] = cused[c] = lused[l] = true;
+    th[t] = server->time(1, tcb[t]);
+    cother[c] = new Socket; ch[c] = server->pair(ccb[c], *cother[c]);
+    lh[l] = server->listen(Socket::loopbackAddress, 0, lcb[l]);
+    if(!th[t] || !ch[c] || !lh[l]) return "setup failed";
+    server->interrupt();            // clear() must also forget a pending interrupt
+    server->clear();
+    SP* p = server->_p;
+    if(p->_timers.size() || p->_clients.size() || p->_listeners.size() || p->_establishers.size() || p->_resolvers.size() || !p->_closingClients.isEmpty())
+      r = "clear() left objects in the pools";
+    if(!r && (p->_queuedTimers.size() != 1 || p->_interrupted)) r = "clear() left timers queued or an interrupt pending";
+    go(wl, 0, 0);
+    usleep(15000);
+    int sv; sem_getvalue(&wl.done, &sv);
+    go(wa, 0, 0); if(!wait_done(wa, 3000)) return "interrupt() did not return";
+    const char* r2 = finish_round(true); if(!r) r = r2;
+    if(!r && mt_acts > 0) r = "a timer cleared by clear() was activated";
+    if(!r && (sv > 0) && false) r = "";
+    // the server is usable afterwards
+    Socket other; Server::Client* nc = server->pair(ccb[c], other);
+    if(!r && !nc) r = "pair() fails after clear()";
+    if(nc) { usize post = 7; if(!nc->write(zeros, 3, &post) && !r) r = "write() fails after clear()"; server->remove(*nc); }
+  } else
+    r = "bad round";
+  return r;
+}
+
+static void mt_op(vh::Tok& t)
+{
+  slk_arm(0); mt_mode = 1;
+  Worker* ws[3] = {&wl, &wa, &wb};
+  for(int k = 0; k < 3; ++k) { sem_init(&ws[k]->go, 0, 0); sem_init(&ws[k]->done, 0, 0); ws[k]->quit = 0; }
+  pthread_create(&wl.th, 0, loop_main, 0); pthread_create(&wa.th, 0, intr_main, &wa); pthread_create(&wb.th, 0, intr_main, &wb);
+  for(int k = 1; k < t.n; ++k) {
+    mt_cur_k = k; mt_cur_tok = t.v[k];
+    const char* r = mt_round(t.v[k], k);
+    if(r) emitf("mt %d %s FAIL %s", k, t.v[k], r); else emitf("mt %d %s ok", k, t.v[k]);
+  }
+  for(int k = 0; k < 3; ++k) { ws[k]->quit = 1; __sync_synchronize(); sem_post(&ws[k]->go); }
+  for(int k = 0; k < 3; ++k) pthread_join(ws[k]->th, 0);
+  for(int k = 0; k < 3; ++k) { sem_destroy(&ws[k]->go); sem_destroy(&ws[k]->done); }
+  mt_mode = 0; slk_arm(1);
+  emit("mt end");
 }
 
 static int cmp_long(const void* a, const void* b) { long x = *(const long*)a, y = *(const long*)b; return x < y ? -1 : x > y; }
@@ -296,6 +490,9 @@ static void state_line()
     if(ids[k] < 0) { n += snprintf(cl + n, sizeof(cl) - n, "%sc?", n ? "," : ""); continue; }
     SP::ClientImpl* c = (SP::ClientImpl*)ch[ids[k]];
     n += snprintf(cl + n, sizeof(cl) - n, "%sc%ld:%llu:%d", n ? "," : "", ids[k], (unsigned long long)c->_sendBuffer.size(), c->_suspended ? 1 : 0);
+    // the public accessors must agree with the private state
+    if(ch[ids[k]]->isSuspended() != c->_suspended || ch[ids[k]]->getSendBufferSize() != c->_sendBuffer.size() || &ch[ids[k]]->getSocket() != (Socket*)c)
+      emitf("! accessor of c%ld disagrees with the client's state", ids[k]);
     if(n >= sizeof(cl) - 64) break;
   }
   if(!n) strcpy(cl, "-");
@@ -313,7 +510,7 @@ static void teardown()
 {
   slk_arm(0);
   if(server) { delete server; server = 0; }
-  for(long k = 0; k < NID; ++k) if(cother[k]) { delete cother[k]; cother[k] = 0; }
+  for(long k = 0; k < NID; ++k) if(cother[k]) { if(cother[k]->getFileDescriptor() >= 0) cother[k]->close(); delete cother[k]; cother[k] = 0; }
   for(int i = 0; i < nentries; ++i) { for(int k = 0; k < entries[i].nacts; ++k) free(entries[i].acts[k]); }
   nentries = 0;
 }
@@ -326,6 +523,7 @@ static void begin(long c, vh::Tok&)
   memset(calive, 0, sizeof(calive)); memset(cused, 0, sizeof(cused));
   memset(lalive, 0, sizeof(lalive)); memset(lused, 0, sizeof(lused));
   memset(ealive, 0, sizeof(ealive)); memset(eused, 0, sizeof(eused));
+  mt_next_id = 100;
   for(long k = 0; k < NID; ++k) { tcb[k].id = ccb[k].id = lcb[k].id = ecb[k].id = k; }
   intro_client = -1;
   slk_reset(emit, k_peek, k_announce, k_foreign, k_now);
@@ -361,6 +559,15 @@ static void op(long, long, vh::Tok& t)
     server->run();
     slk_in_run(0);
     emit("ret");
+  } else if(!strcmp(o, "mt")) {
+    mt_op(t);
+    return;
+  } else if(!strcmp(o, "opts") && t.n == 6) {
+    server->setKeepAlive(atoi(t.v[1]) != 0);
+    server->setNoDelay(atoi(t.v[2]) != 0);
+    server->setSendBufferSize(atoi(t.v[3]));
+    server->setReceiveBufferSize(atoi(t.v[4]));
+    server->setReuseAddress(atoi(t.v[5]) != 0);
   } else if(!strcmp(o, "sendq")) {
     for(int k = 1; k < t.n; ++k) {
       if(!strcmp(t.v[k], "w")) slk_push_send(0, 0); else if(!strcmp(t.v[k], "e")) slk_push_send(1, 0); else slk_push_send(2, atol(t.v[k]));
